@@ -290,7 +290,7 @@ LANES = [
         name="grammar",
         run_case=run_grammar,
         strategy=strat_grammar,
-        budget={"quick": 48000, "thorough": 1600000},
+        budget={"quick": 48000, "thorough": 600000},
         shards={"quick": 16, "thorough": 64},
         nontrivial=_nontrivial,
         labels=_labels,
@@ -301,7 +301,7 @@ LANES = [
         name="mutation",
         run_case=run_mutation,
         strategy=strat_mutation,
-        budget={"quick": 32000, "thorough": 800000},
+        budget={"quick": 32000, "thorough": 300000},
         shards={"quick": 16, "thorough": 48},
         nontrivial=_nontrivial,
         labels=_labels,
